@@ -1,5 +1,5 @@
 import Rtcm.Lemmas.Crc
-import Rtcm.Model.Message
+import Rtcm.Lemmas.Message
 import Rtcm.Gen.Tables
 /-
   C07 — serialize and parse are mutual inverses and framing is canonical.
@@ -8,19 +8,6 @@ import Rtcm.Gen.Tables
   harness checks `eval(repr(m)).payload == payload` on the implementation.
 -/
 namespace Rtcm
-
-theorem construct_payload (T : Tables) (p : Bytes) (l : Nat) (m : Msg) (h : construct T (some p) l = .ok m) :
-    m.payload = p := by
-  unfold construct at h
-  simp only at h
-  split at h
-  · simp at h
-  · simp at h
-  · split at h
-    · injection h with h; rw [← h]
-    · split at h
-      · simp at h
-      · injection h with h; rw [← h]
 
 /-- a message keeps the payload it was constructed from, byte for byte -/
 theorem C07_payload_verbatim (T : Tables) (p : Bytes) (l : Nat) (m : Msg) (h : construct T (some p) l = .ok m) :
